@@ -627,6 +627,7 @@ func (c *diskCache) get(ctx context.Context, kind cache.EntryKind, hash string, 
 	// did not successfully commit.
 	unreserve := false
 	removeTempfile := false
+	reservedSize := size // Space reserved by availableOrTryProxy, if the size is known.
 	defer func() {
 		// No lock required to remove stray tempfiles.
 		if removeTempfile {
@@ -638,7 +639,7 @@ func (c *diskCache) get(ctx context.Context, kind cache.EntryKind, hash string, 
 
 		if unreserve {
 			c.mu.Lock()
-			err := c.lru.Unreserve(size)
+			err := c.lru.Unreserve(reservedSize)
 			if err != nil {
 				// Set named return value.
 				rErr = internalErr(err)
@@ -697,6 +698,20 @@ func (c *diskCache) get(ctx context.Context, kind cache.EntryKind, hash string, 
 		return nil, -1, nil
 	}
 
+	if size <= 0 && foundSize > 0 {
+		// The size was unknown, so no space has been reserved yet. Now
+		// that the backend told us, reserve it like any other write (this
+		// also applies max_size_hard_limit) before storing the blob.
+		c.mu.Lock()
+		err = c.lru.Reserve(foundSize)
+		c.mu.Unlock()
+		if err != nil {
+			return nil, -1, err
+		}
+		reservedSize = foundSize
+		unreserve = true
+	}
+
 	legacy := kind == cache.CAS && c.storageMode == casblob.Identity
 
 	blobPathBase := path.Join(c.dir, c.FileLocationBase(kind, legacy, hash, foundSize))
@@ -753,7 +768,7 @@ func (c *diskCache) get(ctx context.Context, kind cache.EntryKind, hash string, 
 	}
 
 	verifYield("fetch.written")
-	unreserve, removeTempfile, err = c.commit(key, legacy, blobFile, size, foundSize, sizeOnDisk, random)
+	unreserve, removeTempfile, err = c.commit(key, legacy, blobFile, reservedSize, foundSize, sizeOnDisk, random)
 	if err != nil {
 		_ = rc.Close()
 		return nil, -1, internalErr(err)
